@@ -77,8 +77,11 @@ TARGETED = [
     "@union\nS.1.0 a\nuint8 b", "@print S.1.0", "@assert {S.1.0} == {S.1.0}", "@assert S.1.0.foo", "ns.S.1.0 f",
     "float17 x", "saturated bool x", "truncated int8 x", "uint8[4294967296] x", "\x00", "\t\r", "#",
 ]
+_BIG = "1" + "0" * 5000
 DIGIT_LIMIT = ["@print 10**5000", "@assert 10**5000 / 0 == 1", "uint8 X = 10**5000", "uint8[10**5000 / 3] x",
-               "@assert 10**5000 | 0.5 == 1"]
+               "@assert 10**5000 | 0.5 == 1",                     # text rendering of a huge rational (fix patch 4)
+               "@assert %s == 1" % _BIG, "@assert %s.0 == 1" % _BIG, "uint%s x" % _BIG,  # decimal literal > 4300 digits
+               "@extent 10**5000 * 8", "uint64 z\n@extent -(10**5000) * 8"]          # %d of a huge native int
 
 
 def whole_text(eng, tier, seed):
